@@ -3046,10 +3046,20 @@ func (db *DB) snapshotWALEndOffset(pos ltx.Pos) (int64, error) {
 		return 0, &DBNotReadyError{Reason: "wal restarted since the last sync"}
 	}
 
-	if db.syncState.lastSyncedWALOffset > 0 {
-		return db.syncState.lastSyncedWALOffset, nil
+	ltxEndOffset := dec.Header().WALOffset + dec.Header().WALSize
+	if offset := db.syncState.lastSyncedWALOffset; offset > 0 {
+		// The in-memory offset must be the end of the WAL range recorded in
+		// the LTX file of the position we advertise. It is not after the local
+		// LTX files were removed and re-fetched from the replica at an older
+		// position (ResetLocalState, database behind replica) while the cursor
+		// of the last sync stayed in memory: the frames in between belong to
+		// later transactions. The next sync re-establishes the cursor.
+		if ltxEndOffset > 0 && offset != ltxEndOffset {
+			return 0, &DBNotReadyError{Reason: "sync state does not match the local position"}
+		}
+		return offset, nil
 	}
-	return dec.Header().WALOffset + dec.Header().WALSize, nil
+	return ltxEndOffset, nil
 }
 
 func (db *DB) snapshotReader(ctx context.Context, pos *snapshotReadPosition) (io.ReadCloser, error) {
